@@ -44,6 +44,10 @@ func batch(seed uint64, tier, which string) []program {
 			dp := genDepsProgram(r.Fork())
 			ps = append(ps, program{Kind: "ixdeps", Deps: &dp})
 		}
+		for i := 0; i < 3; i++ {
+			qp := genQDProgram(r.Fork())
+			ps = append(ps, program{Kind: "ixquery", QD: &qp})
+		}
 	}
 	return ps
 }
@@ -77,6 +81,10 @@ func run1(p program, race bool) (*history, error) {
 	if p.Kind == "ixdeps" {
 		res := runDepsProgram(*p.Deps, race)
 		return &history{Kind: "ixdeps", Cfg: "index+corpus, dependent blobs delivered by different clients", Clients: res.Clients, Race: race, Deps: &res}, nil
+	}
+	if p.Kind == "ixquery" {
+		res := runQDProgram(*p.QD, race)
+		return &history{Kind: "ixquery", Cfg: "index+corpus+search.Handler, Query with describe while claims flip the attribute", Clients: len(p.QD.Writers) + p.QD.Queriers, Race: race, QD: &res}, nil
 	}
 	if p.Kind == "index" {
 		return runIxProgram(p, race)
@@ -182,12 +190,17 @@ const checkTimeout = 12 * time.Second
 type tally struct {
 	histories, linearizable, illegal, unknown, ops, raceHist int
 	depsProgs, depsOverlaps, depsInverted, depsQueries       int
+	qdProgs, qdQueries                                       int
 }
 
 // checkHistory is the property's oracle on one recorded history.
 func checkHistory(r *hk.Run, h *history, t *tally) {
 	if h.Kind == "ixdeps" {
 		checkDeps(r, h, t)
+		return
+	}
+	if h.Kind == "ixquery" {
+		checkQDHistory(r, h, t)
 		return
 	}
 	w := newWorld(h.Pool)
@@ -356,6 +369,60 @@ func checkDeps(r *hk.Run, h *history, t *tally) {
 	}
 }
 
+// checkQDHistory: oracles of the query+describe programs (A and C were evaluated where the index lived).
+func checkQDHistory(r *hk.Run, h *history, t *tally) {
+	q := h.QD
+	src := "inproc"
+	if h.Race {
+		src = "race"
+	}
+	r.Hit("hist:ixquery:" + src)
+	t.qdProgs++
+	t.qdQueries += q.Queries
+	if q.BuildFail != "" {
+		r.Fail("harness:query-describe-program", q.BuildFail, "", "", nil)
+		return
+	}
+	ops := []string{"store qd"}
+	for _, rc := range q.Recs {
+		ops = append(ops, qdOpLine(q.Items, rc.In))
+	}
+	for _, p := range q.Problems {
+		r.Fail(p.Sig, p.Detail, p.Exp, p.Obs, ops)
+	}
+	if q.Overlap > 0 {
+		r.Hit("mech:queries-hold-index-read-lock(query+describe overlapping a receive)")
+		r.Distinct(fmt.Sprintf("ixquery/c%d/overlap", h.Clients))
+	}
+	res, order := checkQD(q.Items, q.NPN, q.Recs, checkTimeout)
+	switch res {
+	case porcupine.Ok:
+		t.linearizable++
+		r.Case(fmt.Sprintf("%s %s clients=%d ops=%d queries=%d", src, h.Cfg, h.Clients, len(q.Recs), q.Queries))
+		r.Op("store qd", "ok")
+		for _, i := range order {
+			r.Op(qdOpLine(q.Items, q.Recs[i].In), q.Recs[i].Out)
+		}
+	case porcupine.Illegal:
+		t.illegal++
+		r.ImplOnly("history-not-linearizable")
+		var b strings.Builder
+		for i, rc := range q.Recs {
+			if i > 160 {
+				break
+			}
+			fmt.Fprintf(&b, "[c%d %d-%d %s -> %s] ", rc.Client, rc.Call, rc.Ret, qdOpLine(q.Items, rc.In), rc.Out)
+		}
+		r.Fail("nonlin:index-query-describe", "the receives and the query+describe answers are not linearizable against the claim fold (an answer that no single set of received claims gives): "+b.String(),
+			"every answer = the fold of some set of received claims consistent with real time", "none (porcupine); full history: "+string(mustJSON(h)), ops)
+	default:
+		t.unknown++
+		r.Hit("porcupine:timeout")
+	}
+	t.histories++
+	t.ops += len(q.Recs)
+}
+
 func Run(r *hk.Run) {
 	r.Res.Rule = "a history counts when at least two calls of different clients overlapped in real time on the same blob (or with an enumerate/claims query) and one of them writes; key = store kind / #clients / set of overlapping call-kind pairs"
 	ystate.Store(r.Res.Seed*1315423911 + 7)
@@ -432,6 +499,7 @@ func Run(r *hk.Run) {
 	}
 
 	r.Note(fmt.Sprintf("dependent-blob index programs=%d (dependent/dependency receives overlapping: %d pairs; dependent acknowledged first: %d pairs; %d sorted permanode enumerations by querier clients during the feeds), each compared at quiescence with a sequential feed", t.depsProgs, t.depsOverlaps, t.depsInverted, t.depsQueries))
+	r.Note(fmt.Sprintf("query+describe programs=%d (%d Query calls with describe while claims flipped the queried attribute; every answer checked for self-consistency, up to 36 per querier recorded and checked for linearizability)", t.qdProgs, t.qdQueries))
 	r.Note(fmt.Sprintf("histories=%d (under -race: %d) linearizable=%d not-linearizable=%d undecided=%d calls=%d; in-process batch %.1fs",
 		t.histories, t.raceHist, t.linearizable, t.illegal, t.unknown, t.ops, inprocWall.Seconds()))
 }
@@ -447,10 +515,24 @@ const (
 func NewExec() func(w []string) string {
 	var s *sut
 	var ixw *ixWorld
+	var qx *qdReplay
 	sizes := map[string]int{}
 	return func(ws []string) string {
 		if len(ws) == 0 {
 			return "bad-op"
+		}
+		if ws[0] == "store" && len(ws) == 2 && ws[1] == "qd" {
+			qx = newQDReplay()
+			if qx == nil {
+				return "bad-op"
+			}
+			return "ok"
+		}
+		if ws[0] == "aclaim" || ws[0] == "adel" || ws[0] == "qd" {
+			if qx == nil {
+				return "bad-op"
+			}
+			return hk.Guard(func() string { return qx.do(ws) })
 		}
 		key := func(i int) (string, bool) {
 			if len(ws) <= i {
